@@ -15,6 +15,7 @@ import re
 from .mir import Body
 
 _KNOWN = None
+INLINED_LOG = set()   # (caller path, helper path) pairs spliced during this run - reported in the evidence
 
 
 def known_functions():
@@ -158,6 +159,7 @@ def inline(facts, body, depth=2, max_blocks=120, keep=None, stack=()):
             blocks.append(nb)
             origin[boff + j] = getattr(cal, "inlined_origin", {}).get(j, (tgt, j))
         changed = True
+        INLINED_LOG.add((body.path, tgt))
     if not changed:
         return body
     raw = dict(body.raw)
